@@ -135,7 +135,8 @@ package remedies
 //@ pure GroupQuotaAllocation.DefaultBehavior
 
 // (a header that is absent reads as the empty string, as in Go; a spec-level m[k] is the raw stored value)
-// the share of a group: the first entry of the allocation table whose header value is the request's group header value
+// the share of a group: an entry of the allocation table whose header value is the request's group header value
+// (which one, if the table lists a value twice, is not part of the property)
 //@ ghost func groupMatches(cfg *sharedConfig.StrategyBasedThrottlingConfig, r lunarMessages.OnRequest, j int) bool = cfg.GroupQuotaAllocation.Groups[j].GroupHeaderValue == ite(in(cfg.GroupQuotaAllocation.GroupBy.HeaderName, r.Headers), r.Headers[cfg.GroupQuotaAllocation.GroupBy.HeaderName], "")
 //@ func getQuotaAllocationRatio
 //@   prop C09
@@ -143,7 +144,7 @@ package remedies
 //@   modifies nothing
 //@   loop 1 invariant[none-so-far] forall(j, 0, idx1, !groupMatches(remedyConfig, onRequest, j))
 //@   ensures[found-iff-listed] result1 <==> exists(j, 0, len(remedyConfig.GroupQuotaAllocation.Groups), groupMatches(remedyConfig, onRequest, j))
-//@   ensures[share-of-own-group] result1 ==> exists(j, 0, len(remedyConfig.GroupQuotaAllocation.Groups), groupMatches(remedyConfig, onRequest, j) && result0 == remedyConfig.GroupQuotaAllocation.Groups[j].AllocationPercentage / 100.0 && forall(m, 0, j, !groupMatches(remedyConfig, onRequest, m)))
+//@   ensures[share-of-own-group] result1 ==> exists(j, 0, len(remedyConfig.GroupQuotaAllocation.Groups), groupMatches(remedyConfig, onRequest, j) && result0 == remedyConfig.GroupQuotaAllocation.Groups[j].AllocationPercentage / 100.0)
 
 //@ func (*StrategyBasedThrottlingPlugin).OnRequest
 //@   prop C09
@@ -159,4 +160,4 @@ package remedies
 //@   ensures[own-remedy-own-group] gTried ==> gTryLimiter == scopedRemedy.Remedy.Name && gTryGroup == groupID && gTryGrouping == grouping
 //@   ensures[ungrouped-without-allocation] gTried && remedyConfig.GroupQuotaAllocation == nil ==> gTryGroup == limit.UngroupedLimit && gTryGrouping == limit.Ungrouped && gTryRatio == 1.0
 //@   ensures[configured-window] gTried ==> gTryAllowed == remedyConfig.AllowedRequestCount && gTryWindow == remedyConfig.WindowSizeInSeconds * 1000000000
-//@   ensures[share-of-own-group] gTried && remedyConfig.GroupQuotaAllocation != nil ==> (exists(j, 0, len(remedyConfig.GroupQuotaAllocation.Groups), groupMatches(remedyConfig, onRequest, j) && gTryRatio == remedyConfig.GroupQuotaAllocation.Groups[j].AllocationPercentage / 100.0 && forall(m, 0, j, !groupMatches(remedyConfig, onRequest, m)))) || (forall(j, 0, len(remedyConfig.GroupQuotaAllocation.Groups), !groupMatches(remedyConfig, onRequest, j)) && (remedyConfig.GroupQuotaAllocation.DefaultBehavior() == sharedConfig.DefaultQuotaGroupBehaviorUseDefaultAllocation ==> gTryRatio == remedyConfig.GroupQuotaAllocation.DefaultAllocationPercentage / 100.0))
+//@   ensures[share-of-own-group] gTried && remedyConfig.GroupQuotaAllocation != nil ==> (exists(j, 0, len(remedyConfig.GroupQuotaAllocation.Groups), groupMatches(remedyConfig, onRequest, j) && gTryRatio == remedyConfig.GroupQuotaAllocation.Groups[j].AllocationPercentage / 100.0)) || (forall(j, 0, len(remedyConfig.GroupQuotaAllocation.Groups), !groupMatches(remedyConfig, onRequest, j)) && (remedyConfig.GroupQuotaAllocation.DefaultBehavior() == sharedConfig.DefaultQuotaGroupBehaviorUseDefaultAllocation ==> gTryRatio == remedyConfig.GroupQuotaAllocation.DefaultAllocationPercentage / 100.0))
